@@ -7,13 +7,18 @@ Tie  : harness/c05_solve.c = the REAL mps_mpsolve, every pthread call of libmps 
        Per run: (i) shim verdict (deadlock, step limit, misuse, crash); (ii) results judged by the property's own
        predicate with the proved-sound root oracle (count identity, every finite disc contains a root, isolated /
        approximated discs hold one root, every root covered); (iii) ASan; (iv) lock edges -> Conc/Gen/LockGen.v,
-       obligation LockGen_acyclic re-checked; (v) trace replayed through the extracted Worker.step (bin/worker).
+       obligation LockGen_acyclic re-checked; (v) trace replayed through the extracted Worker.step (bin/worker) AND, lock by
+       lock, through the extracted refined step function Worker.rstep (coq/Conc/WorkerRefined.v: the six worker bodies
+       instruction by instruction): tasks are bracketed by a trampoline (--wrap=mps_thread_pool_assign), the job handed out
+       (--wrap=mps_thread_job_queue_next), *nzeros / *excep / root[i]->again and a hash of the root's value fields are sampled
+       by the harness beside every lock / unlock call of a worker and must equal the model's.
 """
 import os, re, json, time, collections, concurrent.futures as cf
 from fractions import Fraction as Fr
 import vf, solve as S, polygen as G, e2e
 
-WRAP = "-Wl,--wrap=vf_mutex_init,--wrap=vf_mutex_lock,--wrap=vf_mutex_destroy,--wrap=vf_mutex_unlock,--wrap=mps_mpsolve"
+WRAP = ("-Wl,--wrap=vf_mutex_init,--wrap=vf_mutex_lock,--wrap=vf_mutex_destroy,--wrap=vf_mutex_unlock,--wrap=mps_mpsolve,"
+        "--wrap=mps_thread_pool_assign,--wrap=mps_thread_job_queue_next")
 SIG_XUNLOCK = "cross-thread-unlock:block_mutex:mps_mcluster"
 THREADS = [1, 2, 3, 4, 8, 16]
 CONFIGS = [["-a", "u", "-G", "i"], ["-a", "s", "-G", "i"], ["-a", "u", "-G", "a", "-o", "60"], ["-a", "s", "-G", "a", "-o", "60"],
@@ -147,11 +152,17 @@ def run(ctx):
     rc, _, e = vf.sh("nm -S -n --defined-only %s > %s" % (harness, syms))
     if rc != 0: raise vf.InfraError("nm failed: %s" % e)
     env = ctx.san_env({"UBSAN_OPTIONS": "print_stacktrace=0:halt_on_error=1:exitcode=98"})
-    # the extracted model
+    # the extracted models (abstract + refined) and the hand-written trace driver; rebuilt when a source is newer
     wbin = os.path.join(vf.BINDIR, "worker")
-    rc, o, e = vf.sh("cd %s/coq && timeout 900 make -s Extract/Extract_worker.vo >/dev/null 2>&1; cd ../ocaml && "
-                     "ocamlfind ocamlopt -O2 -w -a -package str,unix,zarith -linkpkg worker.mli worker.ml worker_driver.ml -o ../bin/worker 2>&1"
-                     % vf.VERIF, timeout=1200) if not os.path.exists(wbin) else (0, "", "")
+    srcs = [os.path.join(vf.VERIF, x) for x in ("coq/Conc/WorkerRefined.v", "coq/Conc/WorkerModel.v", "coq/Conc/JobQueue.v", "coq/Conc/LockOrder.v",
+                                                 "coq/Extract/Extract_worker.v", "ocaml/worker_driver.ml")]
+    if not os.path.exists(wbin) or any(os.path.getmtime(x) > os.path.getmtime(wbin) for x in srcs if os.path.exists(x)):
+        tmpb = wbin + ".%d.tmp" % os.getpid()
+        rc, o, e = vf.sh("cd %s/coq && timeout 900 make -s Extract/Extract_worker.vo 2>&1 | tail -5; cd ../ocaml && "
+                         "ocamlfind ocamlopt -O2 -w -a -package str,unix,zarith -linkpkg worker.mli worker.ml worker_driver.ml -o %s 2>&1 && mv %s %s"
+                         % (vf.VERIF, tmpb, tmpb, wbin), timeout=1800)
+        if rc != 0 or not os.path.exists(wbin):
+            raise vf.InfraError("building bin/worker failed: %s %s" % (o[-1500:], e[-1500:]))
     worker = ctx.model_bin("worker")
 
     if ctx.replay:
@@ -173,6 +184,7 @@ def run(ctx):
 
     stats = collections.Counter(); samples = []; edges = set(); same = set(); lock_hist = collections.Counter()
     tot = collections.Counter(); recs = []; seen_sig = set(); baseline = {}
+    rtot = collections.Counter(); rvar = collections.Counter(); rvar1 = collections.Counter(); rcalls = collections.Counter()
     def rep_of(j, r, extra=None):
         d = {"case": j["case"]["name"], "class": j["case"]["cls"], "text": j["case"]["text"], "opts": j["opts"], "threads": j["threads"],
              "sched": (["--random", "1", "--seed", "0"] if False else j["sched"]), "mode": r["kv"].get("mode"), "seed": r["kv"].get("seed"),
@@ -202,6 +214,20 @@ def run(ctx):
                     cc, n_ = e_.rsplit(":", 1); lock_hist[cc] += int(n_)
             elif ln.startswith("SUMMARY"):
                 for k_, v_ in re.findall(r"(\w+)=(\d+)", ln): tot[k_] += int(v_) if k_ != "maxfetch" else 0; tot["maxfetch"] = max(tot["maxfetch"], int(dict(re.findall(r"(\w+)=(\d+)", ln))["maxfetch"]))
+        rbad = {}
+        for ln in wl:
+            if ln.startswith("RBAD "):
+                d = dict(re.findall(r'(\w+)=("[^"]*"|\S+)', ln)); rbad[int(d["seq"])] = d
+            elif ln.startswith("RSUMMARY"):
+                for k_, v_ in re.findall(r"(\w+)=(\d+)", ln): rtot[k_] += int(v_)
+            elif ln.startswith("RVARIANTS"):
+                for e_ in ln.split()[1:]:
+                    nm, a_, b_ = e_.split(":"); rvar[nm] += int(a_); rvar1[nm] += int(b_)
+            elif ln.startswith("RCALLS"):
+                for e_ in ln.split()[1:]:
+                    nm, a_ = e_.rsplit("=", 1); rcalls[nm] += int(a_)
+            elif ln.startswith("RCHECKPROG") and "true" not in ln:
+                raise vf.InfraError("extracted check_prog rejects the transcribed worker programs")
         runinfo = {}
         for ln in wl:
             if ln.startswith("RUN "):
@@ -258,6 +284,17 @@ def run(ctx):
                                   rep_of(j, r, {"model": d}), no_input=(kind == "model-reject"))
             else:
                 stats["model:accepted"] += 1
+            if r["seq"] in rbad:
+                d = rbad[r["seq"]]; kind = d.get("kind", "?")
+                stats["refined:" + kind] += 1
+                sig = "correspondence:%s:%s:%s" % (kind, d.get("variant", "-"), tag)
+                if sig not in seen_sig:
+                    seen_sig.add(sig)
+                    ctx.violation(sig, "trace of the real solver not accepted lock by lock by the refined worker model, body %s (%s at trace line %s, event %s: %s); %s %s, %d threads, %s seed %s"
+                                  % (d.get("variant"), kind, d.get("line"), d.get("event"), d.get("detail"), c["name"], cfgs, j["threads"], r["kv"].get("mode"), r["kv"].get("seed")),
+                                  rep_of(j, r, {"refined": d}), no_input=(kind == "refined-model-reject"))
+            else:
+                stats["refined:accepted"] += 1
             try:
                 res = S.parse_export(r["export"])
             except Exception as e_:
@@ -276,10 +313,32 @@ def run(ctx):
     groups = e2e.certify_records_grouped(ctx, recs, max_bits=ctx.pick(460, 1100), max_degree=16)
     ctx.log("oracle: %d/%d result sets have a certified equation" % (sum(len(g) for g in groups), len(recs)))
     nontrivial = set(); evaluations = 0
+    gtimes = []
+    # Oracle work per result set: count queries (one per distinct disc) and the coverage query.  `orc.cover` is by far the
+    # most expensive call (minutes for degree 11 at 450 bits), so coverage is first decided WITHOUT it when possible:
+    # all discs finite, each certified to hold >= 1 root, pairwise disjoint (exact rational test), 0 in no disc when there
+    # are zero roots, and n + zero_roots = degree  ==>  the n non-zero roots (with multiplicity) all lie in the union.
+    # Quick tier: at most QR distinct result sets per (input, options) are judged and at most QC oracle coverage queries per
+    # input; identical result sets (same options, same discs) share their verdict.  Thorough: no caps.
+    QR, QC = ctx.pick((2, 1), (10 ** 9, 10 ** 9))
+    def cheap_cover(discs, ans, zr, n_ok):
+        if not n_ok or any(d[2] is None for d in discs) or any(lo < 1 for lo, hi in ans): return None
+        if zr > 0 and any(d[0] * d[0] + d[1] * d[1] <= d[2] * d[2] for d in discs): return None
+        for a in range(len(discs)):
+            for b in range(a + 1, len(discs)):
+                dx = discs[a][0] - discs[b][0]; dy = discs[a][1] - discs[b][1]; rr = discs[a][2] + discs[b][2]
+                if dx * dx + dy * dy <= rr * rr: return None
+        return (True, [])
     def judge_group(grp):
-        orc = grp[0]["oracle"]; cache = {}; out = []
+        orc = grp[0]["oracle"]; cache = {}; out = []; t0g = time.time(); per_opts = collections.Counter(); done = {}; covers = 0
         for rec in grp:
             r = rec["res"]; discs = S.discs_of(r); n = len(discs)
+            rkey = (tuple(rec["opts"]), tuple(discs))
+            if rkey in done:
+                out.append((rec,) + done[rkey][1:] + ("same",)); continue
+            if per_opts[tuple(rec["opts"])] >= QR:
+                out.append((rec, "quick-cap", "")); continue
+            per_opts[tuple(rec["opts"])] += 1
             fin = [i for i in range(n) if discs[i][2] is not None]
             need = [discs[i] for i in fin if discs[i] not in cache]
             if need:
@@ -288,26 +347,36 @@ def run(ctx):
                 except Exception as e_:
                     out.append((rec, "oracle-error", repr(e_))); continue
             ans = [cache[discs[i]] for i in fin]
-            cov = None
+            cov = None; how = "none"
             if len(fin) == n:
-                zr = r.meta.get("zero_roots", 0); zero = [(Fr(0), Fr(0), Fr(0))] * (1 if zr > 0 else 0)
-                key = ("cover", tuple(discs))
-                if key not in cache:
+                zr = r.meta.get("zero_roots", 0)
+                deg = len(trim(rec["poly"])) - 1
+                cov = cheap_cover(discs, ans, zr, n + zr == deg and r.meta.get("n") == n); how = "disjoint-counts"
+                if cov is None and covers < QC:
+                    covers += 1; how = "oracle-cover"
+                    zero = [(Fr(0), Fr(0), Fr(0))] * (1 if zr > 0 else 0)
                     try:
                         orc.cover(discs + zero)
-                        cache[key] = (orc.all_covered, [k for k, u in enumerate(orc.uncovered) if u])
+                        cov = (orc.all_covered, [k for k, u in enumerate(orc.uncovered) if u])
                     except Exception as e_:
-                        cache[key] = None
-                cov = cache[key]
-            out.append((rec, fin, ans, cov))
+                        cov = None
+                elif cov is None: how = "quick-cap"
+            item = (rec, fin, ans, cov, how)
+            done[rkey] = item
+            out.append(item + ("new",))
+        gtimes.append((round(time.time() - t0g, 1), grp[0]["case"]["name"], len(grp), len(cache), covers))
         return out
     judged = e2e.par_map(judge_group, groups)
+    ctx.log("oracle judging done; slowest groups (s, case, result sets, distinct disc queries, oracle cover queries): %s" % sorted(gtimes, reverse=True)[:4])
     for grp_out in judged:
         for item in grp_out:
             rec = item[0]; j = rec["job"]; r = rec["run"]; c = rec["case"]; res = rec["res"]
             tag = "%s:%s:j=%d" % (c["name"], "".join(j["opts"]), j["threads"])
             if item[1] == "oracle-error": stats["oracle-error"] += 1; continue
-            _, fin, ans, cov = item
+            if item[1] == "quick-cap": stats["result-set-not-judged(quick tier cap per input and options)"] += 1; continue
+            _, fin, ans, cov, how, fresh = item
+            stats["result-sets-judged:" + ("first-occurrence" if fresh == "new" else "identical-to-a-judged-one")] += 1
+            stats["coverage-decided-by:" + how] += 1
             n = len(res.accm); zr = res.meta.get("zero_roots", 0)
             deg = len(trim(rec["poly"])) - 1
             evaluations += 1
@@ -366,6 +435,7 @@ def run(ctx):
     changed = False
     if not ctx.replay:
         changed = write_lockgen(edges_l, same_l)
+    ctx.log("lock edges written (changed=%s); re-checking proofs" % changed)
     ctx.prove()
     def search():
         # the obligation broke: a cycle in the class relation or a same-class nesting against the index order.
@@ -382,6 +452,13 @@ def run(ctx):
         "schedules_run": tot["runs"], "trace_events": tot["events"], "model_labels_replayed": tot["labels"], "packets": tot["packets"],
         "job_fetches": tot["fetches"], "max_fetches_in_a_packet": tot["maxfetch"], "runs_accepted_by_model": tot["ok"], "runs_rejected_by_model": tot["rejected"],
         "result_sets_judged": sum(len(g) for g in groups), "result_sets": len(recs),
+        "refined_model": {"runs_accepted": rtot["ok"], "runs_rejected": rtot["rejected"], "packets": rtot["packets"], "tasks": rtot["tasks"],
+                          "instructions_replayed": rtot["instructions"], "lock_unlock_calls_matched": rtot["calls"],
+                          "nzeros_excep_again_samples_compared": rtot["samples"], "value_hash_observations": rtot["hashes"],
+                          "search_backtracks": rtot["backtracks"],
+                          "tasks_per_body": dict(rvar), "tasks_per_body_with_one_pool_thread": dict(rvar1),
+                          "calls_matched_by_kind": dict(rcalls),
+                          "bodies_not_reached": [k_ for k_ in ("F", "D", "M", "SF", "SD", "SM") if rvar[k_] == 0]},
         "lock_edges": ["%s>%s" % e_ for e_ in edges_l], "same_class_nestings": ["%s:%d<%d" % s_ for s_ in same_l], "lockgen_changed": changed,
         "lock_class_histogram": dict(lock_hist),
         "histogram": dict(stats), "thread_counts": THREADS, "samples": samples,
@@ -390,14 +467,23 @@ def run(ctx):
         "trusted_base": [
             "Coq 8.16.1 kernel; C05 theorems closed under the global context except C05_workers_inclusion_invariant (stdlib real-number axioms)",
             "extraction ExtrOcamlBasic + ExtrOcamlNativeString; hand-written ocaml/worker_driver.ml (trace parser, projection to labels, "
-            "LFlip/LRead/LWrite inserted when the harness saw again[i] change under the root lock, virtual root lock when the pool has one thread)",
+            "LFlip/LRead/LWrite inserted when the harness saw again[i] change under the root lock, virtual root lock when the pool has one thread; "
+            "refined replay: runs a task's local instructions at the event that starts the real thread's atomic block, searches the data-dependent branches "
+            "and the Newton outcome so that the path ends at the thread's next call and reproduces the sampled *nzeros / *excep / again / value hash; "
+            "re-tabulates the model state's function-valued fields)",
+            "the transcription of the six C bodies into WorkerRefined.src_* is by hand (C text quoted beside each instruction); the lock-by-lock replay with "
+            "counters and flags compared is what ties it to /repo; harness/c05_solve.c trampoline (--wrap=mps_thread_pool_assign, body recognised through nm), "
+            "--wrap=mps_thread_job_queue_next, samples taken in the lock/unlock wrappers",
             "harness/vf_sched.c (its mutex/condvar model IS the pthread semantics assumed; one thread runs at a time: sequentially consistent memory, "
             "preemption only at synchronisation calls and after unlock); harness/c05_solve.c (lock classes from call sites via nm; block_mutexes emulated as semaphores)",
             "root oracle bin/cert (Properties_ORACLE.v) judges every result violation; lib/solve.py, lib/e2e.py",
-            "modelled, not verified: the worker bodies' inner lock sequences are abstracted to any well-nested sequence of <= 2n+6 operations; "
-            "loop-exit tests are nondeterministic; values are not modelled (inclusion invariant is a separate theorem over an abstract metric, C01 assumed for Newton discs)",
+            "abstract model: inner lock sequences abstracted to any well-nested sequence of <= 2n+6 operations, loop-exit tests nondeterministic; "
+            "refined model: values not modelled (version counters), data-dependent tests and the Newton outcome nondeterministic, Newton atomic with respect to "
+            "the protocol mutexes (its own coefficient / precision mutexes are covered by the lock-edge relation only); inclusion invariant is a separate theorem "
+            "over an abstract metric, C01 assumed for Newton discs",
             "not covered: data races between synchronisation points (mpf_get_rdpe's temporary write to its source operand in link.c, unlocked reads in mps_faberth/mps_daberth), weak memory; "
-            "no TSan run; deadlock freedom rests on the lock-order theorem + the shim's exploration, the worker model has no progress theorem",
+            "no TSan run; the shim preempts only at pthread calls (the refined theorems quantify over preemption at every shared access, the executions do not); "
+            "termination and the nzeros bound are proved for the abstract model only",
         ],
     }
     return ctx.finish("proof", cov, ["pthread semantics as implemented by the shim; preemption only at synchronisation points",
